@@ -290,4 +290,21 @@ CHECKS["C03"] = {
     ],
 }
 
+CHECKS["C04"] = {
+    "pkg": "./checks/c04",
+    "level": "exploration",
+    "rule": "rapid state machine: a factory node playing any (dishonest) in-turn deputy builds a block tree with chosen transaction lists through the block assembler (which executes and seals but does not ask the replay guard); "
+            "payload universe: 6 founder transfers with expirations spread over several lifetime windows, their copies with the equivalent signature encoding (r, n-s, v^1), 3 boxes over pairs of them; "
+            "mine(child of any block, any rank, time jump of 0 / 1 / 20 / 58 / 61 / 120 rounds, 0..3 payloads, sometimes the same payload twice), deliver(any block), confirm(any accepted block by all deputies: stable advances and the replay cache is pruned), restart (<= 2). "
+            "Reference verdict per delivered block from the statement: parent accepted, every payload (and box sub) inside block.time <= exp <= block.time+1800, no identity (signed content + signer, standalone or as sub) already on the branch or twice in the block, canonical signature. "
+            "Two-sided: accepted although invalid (executed twice / outside the window) is a violation, and so is rejected although valid (e.g. executed only on an abandoned fork). non-trivial = a delivered block that replays an identity of its branch; distinct by history digest.",
+    "level_text": "Stateful generated block trees with a reference verdict per block computed from identities along the branch; exploration bounded by ~30 steps per history and the payload universe.",
+    "level_note": "Trusted: the harness tree (parent links, which payloads each sealed block really contains), identities by construction. Miner-side replay (pool re-adds side-fork transactions; needs the wall-clock mining path) is not covered by this unit.",
+    "technique": "rapid stateful testing against a reference verdict (two-sided)",
+    "assumptions": ["the block assembler packaging a list without consulting the guard models a dishonest deputy", "times are in-turn by construction, so rejections can only come from parent / replay / window / signature rules"],
+    "units": [
+        {"name": "replay", "test": "TestC04Replay", "quick": {"checks": 200, "shards": 4, "timeout": 900}, "thorough": {"checks": 3000, "shards": 12, "timeout": 3400}},
+    ],
+}
+
 NOT_APPLICABLE = {}
